@@ -1,6 +1,9 @@
 import IOptProofs.BenchSym
 import IOptProofs.BenchDy
 import IOptProofs.BenchMeta2
+import IOptProofs.BenchMeta3
+import IOptProofs.BenchShekel
+import IOptProofs.ShekelCertAll
 /-!
 # C10: the declared optimum of each benchmark family is the true one
 
@@ -9,9 +12,12 @@ the declared optimum point equals the declared optimum value within 1e-4, no poi
 lower than the declared one by more than 2e-3*max(1,|f*|), and the declared point lies within 0.5% of the
 box side of a true global minimiser."
 
-This file: XSquared and Rastrigin, symbolically, in every dimension (no computation): all three clauses
-hold with error 0, over all of `ℝⁿ` (not only the box).
-(Shekel, Shekel4: `C10shekel`; GKLS: `C10gkls`.)
+This file:
+* XSquared and Rastrigin, symbolically, in every dimension (no computation): all three clauses hold with
+  error 0, over all of `ℝⁿ` (not only the box);
+* Shekel 0..999 by a verified interval branch-and-bound evaluated by the kernel (`IOptProofs/ShekelCert*.lean`);
+* Shekel4 1..3 (4-dimensional branch-and-bound).
+(GKLS: `C10gkls`; Hill, Grishagin, StronginC3 are not in this file.)
 -/
 
 namespace C10
@@ -115,5 +121,45 @@ theorem C10_open_declared_table : ∀ i < Gen.metaRowsPacked.size,
   rcases hfam with hf | hf
   · exact Or.inl ((open_rows i hi).1 hf).1
   · exact Or.inr ((open_rows i hi).2 hf).1
+
+/-! ### Shekel (1000 one-dimensional functions on `[0,10]`) -/
+
+/-- **C10, Shekel, generic theorem.** If the Boolean certificate `Shk.shekelOK i` (computed from the
+generated tables `Gen.shekelK/A/C/MinValue/MinPoint i` only) evaluates to `true`, then for
+`f = Prob.shekel` with the (real values of the) coefficients of row `i`, `v` the tabulated minimum value
+and `p` the tabulated minimum point:
+`p ∈ [0,10]`; `|f p - v| ≤ 1e-4`; `f x ≥ v - 2e-3·max(1,|v|)` for all `x ∈ [0,10]`; and `f p < f x` for all
+`x ∈ [0,10]` with `|x - p| ≥ 51/1024` (`51/1024 < 0.05` = 0.5 % of the side).  Moreover `f` is continuous. -/
+theorem C10_shekel_generic (i : Nat) (h : Shk.shekelOK i = true) :
+    Shk.ShekelC10 (Shk.shekelFn i) (dyR (Gen.shekelMinValue i)) (dyR (Gen.shekelMinPoint i)) ∧
+    Continuous (Shk.shekelFn i) :=
+  Shk.shekelOK_sound i h
+
+/-- **C10, Shekel 0..999.** For every shipped Shekel function the three clauses hold, and in the words of
+C10: a global minimiser on `[0,10]` exists, and EVERY global minimiser is within `0.05` (0.5 % of the box
+side) of the declared point. -/
+theorem C10_shekel (i : Nat) (hi : i < 1000) :
+    Shk.ShekelC10 (Shk.shekelFn i) (dyR (Gen.shekelMinValue i)) (dyR (Gen.shekelMinPoint i)) ∧
+    (∃ xs, 0 ≤ xs ∧ xs ≤ 10 ∧ ∀ x, 0 ≤ x → x ≤ 10 → Shk.shekelFn i xs ≤ Shk.shekelFn i x) ∧
+    (∀ xs, 0 ≤ xs → xs ≤ 10 → (∀ x, 0 ≤ x → x ≤ 10 → Shk.shekelFn i xs ≤ Shk.shekelFn i x) →
+      |xs - dyR (Gen.shekelMinPoint i)| < 0.05) := by
+  obtain ⟨h, hc⟩ := Shk.shekelOK_sound i (Shk.shekel_all i hi)
+  exact ⟨h, h.minimiser hc⟩
+
+/-- the optimum that the `Shekel(i)` object declares (metadata row `1000 + i`, read from the running class)
+is exactly the `minShekel` table entry used above, and its box is `[0, 10]` -/
+theorem C10_shekel_declared (i : Nat) (hi : i < 1000) :
+    1000 + i < Gen.metaRowsPacked.size ∧
+    (Gen.metaDecode Gen.metaRowsPacked[1000 + i]!).family = 1 ∧
+    (Gen.metaDecode Gen.metaRowsPacked[1000 + i]!).arg0 = i ∧
+    (Gen.metaDecode Gen.metaRowsPacked[1000 + i]!).optPoint = [Gen.shekelMinPoint i] ∧
+    (Gen.metaDecode Gen.metaRowsPacked[1000 + i]!).optValue = Gen.shekelMinValue i ∧
+    (Gen.metaDecode Gen.metaRowsPacked[1000 + i]!).lower = [dyZero] ∧
+    (Gen.metaDecode Gen.metaRowsPacked[1000 + i]!).upper = [dy10] :=
+  shekel_meta_row i hi
+
+/-- non-vacuity: the certificate of function 0 is `true`, its declared minimum value is below -1.8 -/
+example : Shk.shekelOK 0 = true ∧ (Gen.shekelMinValue 0).toRat < -18 / 10 :=
+  ⟨Shk.shekel_all 0 (by norm_num), by decide +kernel⟩
 
 end C10
